@@ -14,7 +14,10 @@ CLAIMED = {
             "|| extra data, then a prefix of the receipt, then a prefix of the framed merkle proof - nothing "
             "else, nothing reordered - and whenever a signature is returned every part was sent in full "
             "(sign_relays_exactly, composed from the per-step specification of the chunked transfer); an "
-            "unauthorized signature sends exactly one message, path || hash (sign_hash_relays_exactly); per "
+            "unauthorized signature sends exactly one message, path || hash (sign_hash_relays_exactly); a signature "
+            "returned is the (r, s) of the DER signature in the device's answer to the LAST message sent, and that "
+            "answer names the SUCCESS operation (sign_returns_device_signature, sign_hash_returns_device_signature: "
+            "Proofs/SignLast.lean, through all four steps); per "
             "transfer: prefix / completeness-on-success / chunk independence. The oracle Spec.C01.c01 recomputes "
             "the expected parts (path/input, BTC payload layout with unsigned tx and extra data, receipt, proof "
             "framing) from the request independently of the model's encoders and checks prefix/order/"
